@@ -846,7 +846,6 @@ func rWriteOptsForwarded(c *an.Ctx, rule, prefix string) {
 	c.Count("writes_in_option_taking_functions", n)
 }
 
-
 // r1913: a write without an update mask writes every field, `normal` included. updatesNormal answers true for a nil
 // mask; answered false (a nil-safe GetPaths() reads a nil mask as "no paths") an unmasked UpdateMode skips the
 // one-normal-mode check and a second mode can be marked normal.
